@@ -74,6 +74,13 @@ let handle = function
     (match as_json fo (z_of_string pf) v with
      | Err e -> "err " ^ err_name e
      | Ok t -> "ok " ^ hex_of_bytes t)
+  | "jprint" :: pf :: toks ->
+    ftab := [];
+    let (v, _) = rd_val toks in
+    let fo z = List.assoc z !ftab in
+    (match jbl_as_json fo (z_of_string pf) v with
+     | Err e -> "err " ^ err_name e
+     | Ok t -> "ok " ^ hex_of_bytes t)
   | ["unesc"; h; dlen] ->
     (match unescape (z_of_int 34) (trunc0 (bytes_of_hex h)) (z_of_string dlen) with
      | Err e -> "err " ^ err_name e
